@@ -30,7 +30,9 @@ type htmlGen struct {
 }
 
 var gTagNames = []string{"p", "div", "span", "a", "ul", "li", "b", "h1", "x-y", "tr", "P", "Div", "é", "br", "img", "input", "meta"}
-var gAttrNames = []string{"id", "class", "href", "title", "data-x", "hidden", "a", "b", "x:y", "A", "é", "on_click", "v-if", "@x"}
+// (the directive keywords WITHOUT the directive prefix are ordinary attributes: a tag carrying them is still directive-free)
+var gAttrNames = []string{"id", "class", "href", "title", "data-x", "hidden", "a", "b", "x:y", "A", "é", "on_click", "v-if", "@x",
+	"if", "with", "else", "range", "remove", "text", "raw", "elif", "else-if", "define", "insert", "replace", "is"}
 var gTextRunes = []string{"a", "b", " ", "  ", "\n", "\t", "é", "✓", "\U0001F600", "&amp;", "&", ">", "\"", "'", "=", "/", "-", "!", "]", " ", " ", "　", "0", "x y"}
 
 func (g *htmlGen) emit(s string) (int, int) {
